@@ -63,6 +63,10 @@ def c11(ctx):
     res2 = os.path.join(ctx.tmp, "c11rec.ndjson")
     ctx.run_vh(["c11", "record", trace, res2, nsess], timeout=3000)
     ctx.absorb(res2)
+    # reads that end at, just before and just after the end of the 1 MiB read buffer (the implementation's real constant)
+    res3 = os.path.join(ctx.tmp, "c11bufend.ndjson")
+    ctx.run_vh(["c11", "bufend", res3], timeout=3000)
+    ctx.absorb(res3)
     nev = len(read_ndjson(trace))
     ctx.cov["trace_events"] = nev
     a = ctx.tlc("ConnAbs", "ConnAbs.cfg", mode="trace", files=[trace], timeout=1500)
@@ -383,7 +387,11 @@ def c04(ctx):
     # (checked through the trace spec's self-test below)
     trace = os.path.join(ctx.tmp, "secrecy_trace.ndjson")
     res = os.path.join(ctx.tmp, "c04res.ndjson")
-    ctx.run_vh(["c04", "scan", trace, res, 60 if thorough else 12], timeout=3000)
+    progs = mpcl_cases(ctx, "mpcl-gen-c04", "{3, 8, 13}", 5, 600 if thorough else 80,
+                       kinds='{"bin", "lit", "cmp", "logic", "neg", "shift", "if", "loop"}', limit=400 if thorough else 40)
+    pf = os.path.join(ctx.tmp, "c04progs.ndjson")
+    write_ndjson(pf, progs)
+    ctx.run_vh(["c04", "scan", trace, res, 60 if thorough else 12, pf], timeout=3000)
     n = ctx.absorb(res)
     # a listed known finding is reported by its KNOWN-FINDING line; its events are taken out of the trace given to
     # TLC so that every OTHER R-difference still fails the strict invariant
@@ -1016,6 +1024,11 @@ def c03(ctx):
     # control flow only: comparisons, nested ifs, calls inside branches, early returns
     cases += mpcl_cases(ctx, "mpcl-gen-c", "{3, 8}", 6, 2000 if thorough else 300, limit=6000 if thorough else 700,
                         kinds='{"cmp", "lit", "bin", "if", "ifnest", "ifret", "logic"}')
+    # data structures only: arrays and structs built, read, updated from variables and from literals
+    cases += mpcl_cases(ctx, "mpcl-gen-d", "{3, 8}", 7, 3000 if thorough else 500, limit=9000 if thorough else 1200,
+                        kinds='{"arr", "struct", "neg"}')
+    cases += mpcl_cases(ctx, "mpcl-gen-e", "{5, 13}", 6, 1500 if thorough else 250, limit=4000 if thorough else 600,
+                        kinds='{"arr", "struct"}')
     cf = os.path.join(ctx.tmp, "c03cases.ndjson")
     write_ndjson(cf, cases)
     rf = os.path.join(ctx.tmp, "c03res.ndjson")
